@@ -14,8 +14,8 @@ from .base import Result, V
 from . import simcommon as SC
 from .c07 import dev
 
-MODULES = ['TickitModel.Props.C14', 'TickitModel.Props.C06', 'TickitModel.Props.C14Loop', 'TickitModel.Props.C14Race', 'TickitModel.Props.C14Ticker']
-THEOREMS = ['resources_bounded', 'peak_bounded', 'leaky_grows', 'leaky_tcp_grows', 'addWakeup_length', 'addWakeup_unique', 'delWakeups_unique',
+MODULES = ['TickitModel.Props.C14', 'TickitModel.Props.C06', 'TickitModel.Props.C14Loop', 'TickitModel.Props.C14Race', 'TickitModel.Props.C14Ticker', "TickitModel.Props.C14Accept"]
+THEOREMS = ["TcpSt.accept_is_run", "TcpSt.accept_prefix", "accepted_trace_resources", 'resources_bounded', 'peak_bounded', 'leaky_grows', 'leaky_tcp_grows', 'addWakeup_length', 'addWakeup_unique', 'delWakeups_unique',
             'res_step_erases', 'res_step_invisible', 'res_run_erases', 'res_run_lifts', 'res_invariant', 'loop_tasks_bounded', 'loop_tasks_exact', 'loop_entries_bounded',
             'old_loop_preemption_leaks', 'old_loop_resources_grow', 'res_control_independent', 'new_loop_same_history_clean',
             'system_race_invariant', 'system_race_bounded', 'system_farm_bounded', 'old_system_race_grows', 'new_system_race_clean',
